@@ -280,6 +280,7 @@ func c16RunPlace(op string) eng.Result {
 	if op == "=" {
 		c16BothWhens(&res, ss)
 		c16NestedUsesWhens(&res, ss)
+		c16WhenOnWhen(&res, ss)
 		c16Compound(&res, ss)
 		c16WhenAndWhere(&res, ss)
 	}
@@ -375,6 +376,78 @@ func c16NestedUsesWhens(res *eng.Result, ss *sigSet) {
 				ss.add(site+"/read/error-aborts-read", desc+": "+err.Error())
 			case c16Has(got, "u/"+leaf) != truth:
 				ss.add(site+fmt.Sprintf("/read/visible-%v-want-%v", c16Has(got, "u/"+leaf), truth), desc+fmt.Sprintf("; read gives %s", got))
+			}
+		}
+	}
+}
+
+// c16WhenOnWhen: a when that names a leaf which has a when of its own, and leaves with a when reached
+// one by one (GetValue, Find + SetValue): a leaf hidden by its when is no operand (the expression over it
+// is false), and reading a single leaf gives what the read of the whole tree shows for it.
+func c16WhenOnWhen(res *eng.Result, ss *sigSet) {
+	m := model.LoadText(`module ww { namespace "urn:ww"; prefix ww; revision 0;
+  leaf z { type int32; }
+  leaf y { when "../z>10"; type string; }
+  leaf x { when "../y='yes'"; type string; }
+  container c { leaf cz { type int32; } leaf cy { when "../cz>10"; type string; } leaf cx { when "../cy='yes'"; type string; } }
+}`)
+	for _, zv := range []int{5, 15} {
+		for _, yv := range []string{"yes", "no"} {
+			for _, where := range []string{"", "c/"} {
+				pre := map[string]string{"": "", "c/": "c"}[where]
+				t := model.NewTree()
+				c16Put(t, where+pre+"z", val.Int32(zv), "leaf")
+				c16Put(t, where+pre+"y", val.String(yv), "leaf")
+				c16Put(t, where+pre+"x", val.String("xx"), "leaf")
+				want := map[string]string{pre + "z": fmt.Sprint(zv)}
+				if zv > 10 {
+					want[pre+"y"] = yv
+					if yv == "yes" {
+						want[pre+"x"] = "xx"
+					}
+				}
+				b := node.NewBrowser(m, store.NewRef(t).Node())
+				site := fmt.Sprintf("C16/place/when-on-when/%s", map[string]string{"": "module-level", "c/": "in-container"}[where])
+				desc := fmt.Sprintf("z=%d y=%s", zv, yv)
+				// the whole tree
+				got := model.NewTree()
+				var err error
+				fr, msg, pan := eng.Recover(func() { err = b.Root().UpsertInto(store.ContainerNode(got)) })
+				res.Evals++
+				res.Nontriv++
+				switch {
+				case pan:
+					ss.add(site+"/read/panic:"+fr, desc+": "+msg)
+				case err != nil:
+					ss.add(site+"/read/error-aborts-read", desc+": "+err.Error())
+				default:
+					for _, l := range []string{"z", "y", "x"} {
+						_, wanted := want[pre+l]
+						if c16Has(got, where+pre+l) != wanted {
+							ss.add(site+fmt.Sprintf("/read/%s-visible-%v-want-%v", l, !wanted, wanted), desc+fmt.Sprintf("; read gives %s", got))
+						}
+					}
+				}
+				// leaf by leaf
+				for _, l := range []string{"z", "y", "x"} {
+					var v val.Value
+					var gerr error
+					fr, msg, pan := eng.Recover(func() { v, gerr = b.Root().GetValue(where + pre + l) })
+					res.Evals++
+					res.Nontriv++
+					gotText := ""
+					if v != nil {
+						gotText = model.Lex(v)
+					}
+					switch {
+					case pan:
+						ss.add(site+"/get-value/panic:"+fr, desc+" "+l+": "+msg)
+					case gerr != nil:
+						ss.add(site+"/get-value/error", fmt.Sprintf("%s GetValue(%s): %v", desc, where+pre+l, gerr))
+					case gotText != want[pre+l]:
+						ss.add(site+"/get-value/wrong-value", fmt.Sprintf("%s GetValue(%s) = %q want %q", desc, where+pre+l, gotText, want[pre+l]))
+					}
+				}
 			}
 		}
 	}
